@@ -43,6 +43,13 @@ class C01(Prop):
             mode = rng.choice(["convert", "convert", "wrap", "json"])
             if root == "dict":
                 out.append({"stream": "enum", "tag": "enum:" + mode, "input": {"tree": t, "mode": mode}})
+                nodes0 = list(X.node_paths(t))
+                if nodes0 and rng.random() < 0.35:
+                    # a second enumeration of the same object: the first result was used up by its caller and the tree was
+                    # changed underneath with the builtin dict / list operations (not through the xpath interface)
+                    p0, _v0 = rng.choice(nodes0)
+                    out.append({"stream": "enum", "tag": "enum:again:" + mode,
+                                "input": {"tree": t, "mode": mode, "reenum": {"path": list(p0), "old": X.gen_tree(rng, 2)}}})
             leaves = list(X.leaf_paths(t))
             nodes = list(X.node_paths(t))
             rng.shuffle(leaves)
@@ -128,6 +135,18 @@ class C01(Prop):
             from n0struct.n0struct_utils_find import split_name_index
             n, ix = split_name_index(i["s"])
             return {"ok": L.canon([n, list(ix) if isinstance(ix, tuple) else ix])}
+        if st == "enum" and i.get("reenum"):
+            rp = i["reenum"]["path"]
+            t0 = X.ref_set(i["tree"], rp, i["reenum"]["old"])
+            obj = X.build(t0, i["mode"])
+            first = obj.xpath()
+            if isinstance(first, list):
+                del first[:]                                  # the caller consumed its result
+            new_node = X.raw_get(X.build(i["tree"], i["mode"]), rp)
+            holder = X.raw_get(obj, rp[:-1])
+            (dict.__setitem__ if isinstance(holder, dict) else list.__setitem__)(holder, rp[-1], new_node)
+            case["_obj"] = obj
+            return {"ok": L.canon([[p, v] for p, v in obj.xpath()])}
         obj = X.build(i["tree"], i["mode"])
         case["_obj"] = obj
         if st == "enum":
